@@ -34,6 +34,8 @@ pub enum Op {
     /// analyse a text and collect it into the SPARE list (the one on-demand splits were written to, which
     /// shares the text of the reused list since then): the reused list must still report what it held
     AnalyseIntoSpare(Vec<Piece>),
+    /// switch the debug flag of the aged tokenizer (lattice / path dumps on standard output); results must not change
+    SetDebug(bool),
 }
 
 #[derive(Clone, Debug, Serialize, Deserialize)]
@@ -60,6 +62,7 @@ fn op(maxp: usize) -> BoxedStrategy<Op> {
         2 => (any::<u8>(), 0u8..2).prop_map(|(i, m)| Op::SplitInto(i, m)),
         2 => any::<u16>().prop_map(Op::Lookup),
         2 => pieces(maxp).prop_map(Op::AnalyseIntoSpare),
+        1 => prop::bool::weighted(0.7).prop_map(Op::SetDebug),
     ]
     .boxed()
 }
@@ -284,6 +287,7 @@ impl Property for C10 {
             Some(true)
         };
 
+        let _quiet = if case.ops.iter().any(|o| matches!(o, Op::SetDebug(true))) { Some(crate::engine::quiet_stdout::enter()) } else { None };
         for (oi, o) in case.ops.iter().enumerate() {
             let what = format!("op {}", oi);
             match o {
@@ -296,6 +300,10 @@ impl Property for C10 {
                     let s = InfoSubset::from_bits_truncate((*s | force) as u32);
                     subset = Some(s);
                     tok.set_subset(s);
+                }
+                Op::SetDebug(d) => {
+                    tok.set_debug(*d);
+                    rep.class("history switches the debug flag");
                 }
                 Op::Analyse(p, collect) => {
                     let text = render_pieces(&keys, p);
